@@ -35,7 +35,7 @@ ASSUMES = ["numba's and numpy's generators are deterministic functions of their 
            "the record of a locus is a function of (locus, inputs, seed) -- that is the seeding core above -- so the multi-core group uses opaque record lines"]
 BOUNDS = {"quick": "assemble: 0 or 2 reads, sites all fixed / some / none (symbolic homozygosity probabilities and threshold), initial genotype given or sampled, 1-2 chains, 1-2 temperatures; call: with/without variants, initial given or greedy; pedigree: initial given or greedy; application loops: 2 samples; "
                    "multi-core: (loci, cores) in {(1,1),(2,1),(1,2),(2,2),(3,2)}, failing locus in {none, each locus}, ALL schedules; "
-                   "state-leak: each of the four programs processes a 3-sample locus twice (program attributes and module-level containers compared), --report parsing four times; refit: each of the five sampler classes fitted to two read sets in turn vs a fresh object; hash-order: every 2x2-step call trace over 6 diploid genotypes and assemble trace over 4, --report subsets/rotations of 5 names, 48 pool files, 24 pedigree files, every iteration order of sets of up to 3 elements (6 representative orders beyond)",
+                   "state-leak: each of the four programs processes a 3-sample locus twice (program attributes and module-level containers compared), --report parsing four times; cli-attrs: the four programs' command lines with all options given distinctive values / left out, seed in {none, 0, 29}, ploidy in {2, 4}; refit: each of the five sampler classes fitted to two read sets in turn vs a fresh object; hash-order: every 2x2-step call trace over 6 diploid genotypes and assemble trace over 4, --report subsets/rotations of 5 names, 48 pool files, 24 pedigree files, every iteration order of sets of up to 3 elements (6 representative orders beyond)",
           "thorough": "same fit() space (small, fully explored); multi-core: adds (4,2),(2,3),(3,3),(4,3),(5,2),(5,3)"}
 OUTSIDE = ("the OS / CPython implementation of multiprocessing (processes, pickling, pipes, signals) is replaced by its documented contract; more loci / cores than the bound; "
            "iteration over the targets file by pysam (locus order/subsets are covered only through 'a record depends on its locus and the seed alone'); header date/command lines; "
@@ -74,6 +74,9 @@ def configs(tier):
     # a model object (public API: parameterised once, fitted to many samples) fitted twice == a fresh object
     for cls in wiring.CLASSES:
         out.append(dict(group="refit", cls=cls))
+    # argv -> program object: --mcmc-seed (0 is a legal seed), --ploidy, and every numeric option reach the attribute of that meaning
+    for prog in wiring.CLI_PROGS:
+        out.append(dict(group="cli-attrs", prog=prog))
     # the Python-level summaries and argument parsing under sets whose iteration order is a solver variable (str / bytes hashing is
     # randomised per process): a record must not depend on it
     for g0 in range(6):
@@ -589,6 +592,12 @@ def _run_state_leak(c, col):
             col.ok("parse_report_fields returns fresh lists: module-level DEFAULT_FIELDS unchanged, results independent of earlier calls and of edits to earlier results")
 
 
+def _run_cli_attrs(c, col):
+    from checks import wiring
+
+    return wiring.run_cli_attrs(c, col)
+
+
 def _run_refit(c, col):
     from checks import wiring
 
@@ -805,6 +814,10 @@ def replay(v):
         from checks import wiring
 
         return wiring.replay_real(v, wiring.run_refit)
+    if g == "cli-attrs":
+        from checks import wiring
+
+        return wiring.replay_real(v, wiring.run_cli_attrs)
     if g == "rng-sources":
         g = "assemble"
     rs = v["config"].get("seed", 11)
